@@ -102,3 +102,70 @@ def run(ctx):
                 ctx.violation("privacy", f["n"], "TenantManager.%s is public: handlers could index tenants directly" % f["n"])
             else:
                 ctx.ok("privacy", f["n"])
+    ctx.guard("key-form", lambda: run_keyform(ctx))
+
+
+KEYED_OPS = ("get", "get_mut", "insert", "remove", "contains_key", "entry", "remove_entry", "get_key_value")
+TRANSPARENT_NAMES = ("clone", "to_string", "to_owned", "as_str", "as_ref", "borrow", "deref", "into", "from", "as_deref")
+
+
+STD_NORMALISERS = ("to_lowercase", "to_ascii_lowercase", "to_uppercase", "to_ascii_uppercase", "trim", "trim_start", "trim_end", "trim_matches",
+                   "replace", "make_ascii_lowercase", "make_ascii_uppercase", "strip_prefix", "strip_suffix")
+
+
+def is_normaliser(F, callee):
+    """a string -> string function applied to the key: the std case / trim family, or a workspace fn whose only inputs and
+    output are string types (data sources such as StateStore::get or snapshot readers are not normalisers)"""
+    name = callee.rsplit("::", 1)[-1]
+    if name in STD_NORMALISERS and ("str" in callee or "String" in callee):
+        return True
+    it = F.fn_item(callee)
+    if it is None or not callee.startswith("varpulis_"):
+        return False
+    strish = lambda t: t.replace("&", "").replace("mut ", "").strip() in ("str", "alloc::string::String") or "Cow<" in t and "str" in t
+    return bool(it["inputs"]) and all(strish(t) for t in it["inputs"]) and strish(it["output"])
+
+
+def run_keyform(ctx):
+    """Key normal-form agreement on TenantManager.api_key_index: the form under which a key is STORED (the key argument of
+    `insert`) and the form under which it is LOOKED UP / TESTED / REMOVED must be produced by the same functions; if the
+    duplicate test uses another form than the insert, two distinct keys can collide on one entry and one tenant's key then
+    resolves to another tenant."""
+    F = ctx.facts()
+    users = sorted({r["f"] for r in F.fieldacc if r["adt"] == TM and r["field"] == "api_key_index" and r["k"] in ("r", "m", "w", "rt", "mt", "wt")})
+    ctx.floor("key-form", "functions touching TenantManager.api_key_index", len(users), 3)
+    sites = []
+    for p in users:
+        b = ctx.body(p)
+        if b is None:
+            continue
+        for bb, t in b.calls():
+            if not t["args"] or len(t["args"]) < 2:
+                continue
+            d0 = b.desc(t["args"][0])
+            if not d0.endswith("api_key_index"):
+                continue
+            m = t["callee"].rsplit("::", 1)[1]
+            if m not in KEYED_OPS:
+                continue
+            o = Slicer(b).origins([t["args"][1]])
+            norm = sorted({(i or c).split("::<")[0] for c, i, _ in o.calls if is_normaliser(F, i or c)})
+            sites.append((root_fn(p).rsplit("::", 1)[1], m, tuple(norm), t["sp"]))
+    ctx.floor("key-form", "keyed operations on api_key_index", len(sites), 3)
+    stored = {s[2] for s in sites if s[1] in ("insert", "entry")}
+    if len(stored) > 1:
+        for fn, m, norm, sp in sites:
+            if m in ("insert", "entry"):
+                ctx.violation("key-form", "%s:%s" % (fn, m), "api keys are stored under different normal forms (%s)" % sorted(stored), site=sp)
+        return
+    form = next(iter(stored)) if stored else ()
+    counts = {}
+    for fn, m, norm, sp in sites:
+        counts[(fn, m)] = counts.get((fn, m), 0) + 1
+        key = "%s:%s#%d" % (fn, m, counts[(fn, m)])
+        if norm == form:
+            ctx.ok("key-form", key, "key form %s" % (list(form) or "raw"), site=sp)
+        else:
+            ctx.violation("key-form", key, "%s tests / looks up api_key_index with the key form %s while keys are stored under %s: a key that differs from an existing one only by what the normaliser removes passes the duplicate test and then overwrites (or resolves to) the other tenant's entry" % (
+                fn, list(norm) or "raw", list(form) or "raw"), site=sp)
+    ctx.sample({"api_key_index_ops": [{"fn": s[0], "op": s[1], "key_form": list(s[2]) or "raw"} for s in sites]})
